@@ -33,6 +33,9 @@ type quietFleet struct {
 	// LateAt: after the writers stopped, one more application commit (the newest version of its key) is placed on
 	// instance i0 exactly at this yield point of i0's own sync loop, followed by silence: it must still reach everyone
 	LateAt string `json:"late_at,omitempty"`
+	// LateForced: no trigger write; i0 runs with a forced snapshot interval, so the late commit lands at the yield
+	// point of a periodic snapshot whose transaction has nothing to capture (after an ordinary deletion earlier on)
+	LateForced bool `json:"late_forced,omitempty"`
 }
 
 type c10Params struct {
@@ -360,6 +363,9 @@ func RunConvergingFleet(q quietFleet, env *runner.Env, res *runner.Result) {
 	var loops []*sched.Loop
 	for i := 0; i < q.N; i++ {
 		conf := lsx.FastConfig(fmt.Sprintf("i%d", i))
+		if q.LateForced && i == 0 {
+			conf.StorageForceSnapshotInterval = 15 * time.Millisecond
+		}
 		x, err := inst.New(env.Dir(fmt.Sprintf("cf%d", i)), b, db, fmt.Sprintf("i%d", i), inst.Opt{Native: q.Native, Padding: q.Padding, Conf: &conf})
 		if err != nil {
 			res.Verdict, res.Msg = runner.Inconclusive, err.Error()
@@ -419,6 +425,23 @@ func RunConvergingFleet(q quietFleet, env *runner.Env, res *runner.Result) {
 		time.Sleep(time.Duration(r.Intn(1500)) * time.Microsecond)
 	}
 	const wd = 30 * time.Second
+	if q.LateAt != "" && q.LateForced {
+		// an ordinary deletion on i0, fully synced, before the late commit
+		x := insts[0]
+		s.Note(x.Name, "APP BEGIN predel")
+		_, _ = lmdbx.Update(x.Env, func(txn *lmdb.Txn) error {
+			if q.Native {
+				return inst.NativePut(txn, "d", []byte("k3"), base+900_000, true, nil)
+			}
+			return lmdbx.Del(txn, "d", []byte("k3"))
+		})
+		s.Note(x.Name, "APP COMMIT predel")
+		all["k3"] = append(all["k3"], wv{base + 900_000, true, ""})
+		best["k3"] = wv{base + 900_000, true, ""}
+		for _, l := range loops {
+			l.WaitQuiescent(nil, 5, wd)
+		}
+	}
 	if q.LateAt != "" && !q.DupSort {
 		x := insts[0]
 		key := "k0"
@@ -434,13 +457,16 @@ func RunConvergingFleet(q quietFleet, env *runner.Env, res *runner.Result) {
 			})
 			s.Note(x.Name, "APP COMMIT "+key)
 		})
-		// a trigger write (an older version of another key) makes i0 go through a send, so that send.* points occur
-		_, _ = lmdbx.Update(x.Env, func(txn *lmdb.Txn) error {
-			if q.Native {
-				return inst.NativePut(txn, "d", []byte("trigger"), base, false, []byte("t"))
-			}
-			return lmdbx.Put(txn, "d", 0, []byte("trigger"), []byte("t"))
-		})
+		// a trigger write (an older version of another key) makes i0 go through a send, so that send.* points occur;
+		// with a forced interval the periodic snapshots provide them
+		if !q.LateForced {
+			_, _ = lmdbx.Update(x.Env, func(txn *lmdb.Txn) error {
+				if q.Native {
+					return inst.NativePut(txn, "d", []byte("trigger"), base, false, []byte("t"))
+				}
+				return lmdbx.Put(txn, "d", 0, []byte("trigger"), []byte("t"))
+			})
+		}
 		deadline := time.Now().Add(wd)
 		for !s.Fired(arm) {
 			if time.Now().After(deadline) {
